@@ -258,10 +258,17 @@ func TestCQRSDispatch(t *testing.T) {
 		var calls []invoked
 		var failNow map[int]bool
 		var curEqual func(received any) bool // set per item: compares with the value that was sent
+		arrivedName := ""                    // set per item: the name the message carried when it was delivered
+		relabelTo := ""                      // set per item: handlers write this name into the message they were given
 		mkFn := func(idx int) func(ctx context.Context, v any) error {
 			return func(ctx context.Context, v any) error {
 				calls = append(calls, invoked{handler: idx, value: v, shown: fmt.Sprintf("%v", v), equalOK: curEqual != nil && curEqual(v), orig: cqrs.OriginalMessageFromCtx(ctx)})
 				scribble(v)
+				if o := cqrs.OriginalMessageFromCtx(ctx); o != nil && relabelTo != "" {
+					// ... and so does the message: a delivery is dispatched by the name it arrived with, whatever a handler
+					// writes into the message it was shown
+					o.Metadata["name"] = relabelTo
+				}
 				if failNow[idx] {
 					return errHandler
 				}
@@ -292,7 +299,7 @@ func TestCQRSDispatch(t *testing.T) {
 					}
 					return func(p cqrs.CommandProcessorOnHandleParams) error {
 						hookCalls++
-						if p.Message == nil || p.Handler == nil || p.Command == nil || p.CommandName != marshaler.NameFromMessage(p.Message) {
+						if p.Message == nil || p.Handler == nil || p.Command == nil || p.CommandName != arrivedName {
 							hookProblems = append(hookProblems, fmt.Sprintf("OnHandle params incomplete: name %q msg %v", p.CommandName, p.Message != nil))
 						}
 						return p.Handler.Handle(p.Message.Context(), p.Command)
@@ -325,7 +332,7 @@ func TestCQRSDispatch(t *testing.T) {
 					}
 					return func(p cqrs.EventProcessorOnHandleParams) error {
 						hookCalls++
-						if p.Message == nil || p.Handler == nil || p.Event == nil || p.EventName != marshaler.NameFromMessage(p.Message) {
+						if p.Message == nil || p.Handler == nil || p.Event == nil || p.EventName != arrivedName {
 							hookProblems = append(hookProblems, fmt.Sprintf("OnHandle params incomplete: name %q msg %v", p.EventName, p.Message != nil))
 						}
 						return p.Handler.Handle(p.Message.Context(), p.Event)
@@ -358,7 +365,7 @@ func TestCQRSDispatch(t *testing.T) {
 					}
 					return func(p cqrs.EventGroupProcessorOnHandleParams) error {
 						hookCalls++
-						if p.Message == nil || p.Handler == nil || p.Event == nil || p.EventName != marshaler.NameFromMessage(p.Message) || p.GroupName == "" {
+						if p.Message == nil || p.Handler == nil || p.Event == nil || p.EventName != arrivedName || p.GroupName == "" {
 							hookProblems = append(hookProblems, fmt.Sprintf("OnHandle params incomplete: name %q group %q", p.EventName, p.GroupName))
 						}
 						return p.Handler.Handle(p.Message.Context(), p.Event)
@@ -570,6 +577,16 @@ func TestCQRSDispatch(t *testing.T) {
 				sentV, sentTi := v, ti
 				curEqual = func(received any) bool { return sentTi.equal(sentV, received) }
 			}
+			relabelTo = ""
+			if rapid.IntRange(0, 3).Draw(t, "handlersRelabelTheMessageTheyWereShown") == 0 {
+				relabelTo = marshaler.Name(fam[(it.Type+1+rapid.IntRange(0, 1).Draw(t, "relabelTo"))%3].zero())
+			}
+			if rapid.IntRange(0, 2).Draw(t, "deliveredContextAlreadyCarriesAnotherOriginalMessage") == 0 {
+				// a transport that keeps contexts (in-process relays): the delivered message's context went through another
+				// handler before and still names THAT handler's message
+				msg.SetContext(cqrs.CtxWithOriginalMessage(context.Background(), message.NewMessage("the-message-of-an-earlier-handler", nil)))
+			}
+			arrivedName = marshaler.NameFromMessage(msg)
 			sub := subsByName[targets[it.Target]]
 			if !sub.WaitSubs(1, lib.Live) {
 				t.Fatalf("harness: no subscription for %s", targets[it.Target])
